@@ -262,3 +262,48 @@ Example C03_harm_nonvacuous :
               [[EDraw (1 # 2)%Q; ESelect [0] 1 [0]; EClone 0 2; EAccept 2 true]] = Ok s /\
             s_pop s = [2] /\ map (@r_gen nat nat) (s_log s) = [0; 1].
 Proof. eexists. vm_compute. repeat split. Qed.
+
+(* ---------------- the correspondence runner validates the hypotheses ---------------- *)
+(* If Corr.C03.check accepts a recorded run of the implementation, the hypotheses of the theorems
+   above hold for that run (so their conclusions hold for the model state that was compared with the
+   implementation), and the runner's fitness order is a total preorder. *)
+From DV Require Import Base.Corr Corr.C03 Proofs.C03_Corr.
+
+Theorem C03_corr_order_is_total_preorder : forall w : list Z,
+  (forall a b, wfle w a b = true \/ wfle w b a = true) /\
+  (forall a b c, wfle w a b = true -> wfle w b c = true -> wfle w a c = true).
+Proof. exact (fun w => conj (wfle_total w) (wfle_trans w)). Qed.
+Print Assumptions C03_corr_order_is_total_preorder.
+
+Theorem C03_corr_validates_loop : forall k ngen p w mu lam objs pop gens oc ol os ofin oi,
+  k <> KGU ->
+  check (CLoop k ngen p w mu lam objs pop gens oc ol os ofin oi) = true ->
+  let st0 := add_objs empty_store objs in
+  let s0 := gen0 (ev_fun p) (wfle w) (init st0 pop) in
+  init_ok (ev_fun p) st0 pop /\
+  run_ok (step_kind p w k) (ans_ok_kind k mu lam) 1 s0 (map to_ans gens) /\
+  Forall (fun o => off_invalid_distinct (og_off o)) gens /\
+  length gens = ngen /\
+  state_matches (run_from (step_kind p w k) 1 s0 (map to_ans gens)) oc ol os ofin = true /\
+  oi = true.
+Proof. exact check_loop_validates. Qed.
+Print Assumptions C03_corr_validates_loop.
+
+Theorem C03_corr_validates_gu : forall ngen p w mu lam objs pop gens oc ol os ofin oi,
+  check (CLoop KGU ngen p w mu lam objs pop gens oc ol os ofin oi) = true ->
+  let s0 := init (add_objs empty_store objs) pop in
+  run_ok (step_kind p w KGU) ans_ok_gu 0 s0 (map to_ans gens) /\
+  length gens = ngen /\
+  state_matches (run_from (step_kind p w KGU) 0 s0 (map to_ans gens)) oc ol os ofin = true /\
+  oi = true.
+Proof. exact check_gu_validates. Qed.
+Print Assumptions C03_corr_validates_gu.
+
+Theorem C03_corr_validates_harm : forall ngen p w cxpb mutpb nbr objs pop gens oc ol os ofin oi,
+  check (CHarm ngen p w cxpb mutpb nbr objs pop gens oc ol os ofin oi) = true ->
+  let st0 := add_objs empty_store objs in
+  init_ok (ev_fun p) st0 pop /\
+  exists s, ea_harm (ev_fun p) (wfle w) cxpb mutpb nbr st0 pop gens = Ok s /\
+            length gens = ngen /\ state_matches s oc ol os ofin = true /\ oi = true.
+Proof. exact check_harm_validates. Qed.
+Print Assumptions C03_corr_validates_harm.
